@@ -25,12 +25,13 @@ UB == U("@b:s2", S2)
 Users == {UC, UA, UB}
 UsersOf(s) == {u \in Users : u.server = s}
 
-NoTpi == [present |-> FALSE, signed |-> FALSE, hasmxid |-> FALSE, hastoken |-> FALSE, mxid |-> NoUser, token |-> "", sigok |-> FALSE]
+NoTpi == [present |-> FALSE, signed |-> FALSE, hasmxid |-> FALSE, hastoken |-> FALSE, mxid |-> NoUser, token |-> "", sigkey |-> ""]
 EmptyPL == [users_default |-> AbsentV, events_default |-> AbsentV, state_default |-> AbsentV, ban |-> AbsentV,
             redact |-> AbsentV, kick |-> AbsentV, invite |-> AbsentV,
             users |-> <<>>, events |-> <<>>, notifications |-> <<>>, userkeysvalid |-> TRUE]
 C0 == [membership |-> "absent", jauth |-> NoUser, tpi |-> NoTpi, hascreator |-> TRUE, creator |-> UC,
-       federate |-> TRUE, join_rule |-> "absent", pl |-> EmptyPL, redactsserver |-> "", tag |-> 0]
+       federate |-> TRUE, join_rule |-> "absent", pl |-> EmptyPL, redactsserver |-> "", tag |-> 0,
+       tpikeys |-> [top |-> "k8", list |-> {"k7"}]]
 
 \* an event before it is placed in the DAG (id, prev, auth, ts filled in by Place)
 Proto(type, sender, haskey, key, c) ==
